@@ -3,13 +3,13 @@ import evmrun
 from vlib import *
 
 MANIFEST_ENTRY = dict(engine="EvmCosmos", design="§4 C02",
-    technique="TLA+ spec EvmCosmos.tla: property layer Ideal (Cosmos-native meaning of the non-reverted operations of a call tree) and as-built machine M (StateDB cache/dirty/flush/mirror/final-commit micro-semantics); EvmCosmosGen.tla enumerates the scenario space and TLC checks M against Ideal exhaustively (intended design passes, defect machine must fail); every scenario is compiled to contracts and executed by real DeliverTx; TLC trace spec evaluates supply and per-account balances against Ideal and M",
+    technique="TLA+ spec EvmCosmos.tla: property layer Ideal (Cosmos-native meaning of the non-reverted operations of a call tree) and as-built machine M (StateDB cache/dirty/flush/mirror/final-commit micro-semantics); EvmCosmosGen.tla enumerates the scenario space and TLC checks M against Ideal exhaustively (intended design passes, defect machine must fail); every scenario is compiled to contracts and executed by real DeliverTx; EvmCosmosRand.tla draws random call trees (150 in the quick tier, 15000 in the thorough tier) that are executed and judged the same way; TLC trace spec evaluates supply and per-account balances against Ideal and M",
     text="TLC enumerates the whole bounded scenario space (call topologies EOA->precompile, EOA->contract->precompile, nested, with and without attached value, dirtying transfers before/after, every staking/distribution method, named account signer/caller/third party, withdraw address self/other, grants) and proves on the model that the intended design conserves supply while the as-built StateDB mechanism does not; each scenario is then run on the real EVM and keepers, and the trace specification decides supply and every tracked balance from the recorded pre/post state - a deviation that the as-built machine does not predict is reported as a different signature than a known one.",
     note="Bounded scenario space (specs/EvmCosmosGen.tla); straight-line contracts; ICS-20 / bank / werc20 precompiles not covered; the known mint/burn mechanisms are listed per scenario class in known_findings.json.")
 
 
 def run(c):
-    evmrun.run_family(c, "C02", "C02", nquick=600, nrand=(0, 15000))
+    evmrun.run_family(c, "C02", "C02", nquick=600, nrand=(150, 15000))
 
 
 def replay(path, quiet=False):
